@@ -23,6 +23,7 @@ func init() {
 			{ID: "R-C04-3", Doc: "signature encoding pair and key id", Min: 3, Run: ruleC04_3},
 			{ID: "R-C04-4", Doc: "key-type tables agree", Min: 7, Run: ruleC04_4},
 			{ID: "R-C04-5", Doc: "wrapper detection and payload type", Min: 3, Run: ruleC04_5},
+			{ID: "R-C04-6", Doc: "the signer/verifier is built afresh from the key parameter's own material", Min: 3, Run: ruleC04_6},
 			{ID: "R-C01-4", Doc: "verification side of the binding (shared with C01)", Min: 10, Run: ruleC01_4},
 			a1Rule(12, "(*in_toto.Metablock).Sign", "(*in_toto.Metablock).VerifySignature", "(*in_toto.Envelope).Sign", "(*in_toto.Envelope).VerifySignature",
 				"(*in_toto.Metablock).Dump", "(*in_toto.Envelope).Dump", "in_toto.LoadMetadata", "in_toto.getSignerVerifierFromKey", "(*in_toto.Envelope).SetPayload"),
@@ -1145,4 +1146,82 @@ func ruleC12_6(c *Ctx) {
 	if n == 0 {
 		c.bad(R, "in_toto", "metadata constructors", 0, "no Metablock / dsse.Envelope literal found")
 	}
+}
+
+// R-C04-6: getSignerVerifierFromKey returns nothing but the result of one of the three constructors applied to the
+// securesystemslib copy of its key parameter — no cached / shared / substituted verifier.
+func ruleC04_6(c *Ctx) {
+	const R = "R-C04-6"
+	f := c.lookup("in_toto.getSignerVerifierFromKey")
+	if f == nil {
+		c.undecided(R, "in_toto.getSignerVerifierFromKey", "anchor", 0, "not found")
+		return
+	}
+	fn := fname(f)
+	n := 0
+	for _, r := range c.nilErrReturns(f) {
+		n++
+		detail := short(org(r.Results[0]))
+		// leaves of the returned value through phis
+		var leaves []ssa.Value
+		seen := map[ssa.Value]bool{}
+		var walk func(v ssa.Value, at ssa.Instruction)
+		walk = func(v ssa.Value, at ssa.Instruction) {
+			v = resolve(v, at)
+			if seen[v] {
+				return
+			}
+			seen[v] = true
+			if ph, isPhi := v.(*ssa.Phi); isPhi {
+				for _, e := range ph.Edges {
+					walk(e, ph)
+				}
+				return
+			}
+			leaves = append(leaves, v)
+		}
+		walk(r.Results[0], r)
+		ok := len(leaves) > 0
+		for _, lf := range leaves {
+			if isNilConst(lf) {
+				continue
+			}
+			var pc ssa.CallInstruction
+			idx := -1
+			switch x := lf.(type) {
+			case *ssa.Call:
+				pc, idx = x, 0
+			case *ssa.Extract:
+				if k, isCall := x.Tuple.(*ssa.Call); isCall {
+					pc, idx = k, x.Index
+				}
+			}
+			good := false
+			if pc != nil && idx == 0 && strings.HasPrefix(calleeName(pc), "ssl/signerverifier.New") && strings.HasSuffix(calleeName(pc), "FromSSLibKey") {
+				good = derives(pc.Common().Args[0], func(v ssa.Value) bool {
+					k, isCall := v.(*ssa.Call)
+					return isCall && calleeName(k) == "in_toto.getSSLibKeyFromKey" && resolve(k.Call.Args[0], k) == ssa.Value(f.Params[0])
+				}, true)
+			}
+			if !good {
+				ok = false
+				detail = short(org(lf))
+			}
+		}
+		c.check(ok, R, fn, "returned signer/verifier", instrPos(r), "result of a constructor applied to the key parameter's own material", "a signer/verifier that is not freshly built from the supplied key's material is returned ("+detail+"): signatures would be checked against other key material than the caller supplied")
+	}
+	if n == 0 {
+		c.bad(R, fn, "success returns", f.Pos(), "none")
+	}
+	// no package-level state is consulted
+	for _, b := range f.Blocks {
+		for _, in := range b.Instrs {
+			for _, op := range in.Operands(nil) {
+				if g, ok := (*op).(*ssa.Global); ok && g.Pkg == c.pkg("in_toto") && !strings.HasPrefix(g.Name(), "Err") {
+					c.bad(R, fn, "use of package-level "+g.Name(), in.Pos(), "the signer/verifier construction consults package-level state")
+				}
+			}
+		}
+	}
+	c.ok(R, fn, "no package-level state consulted", f.Pos(), "only error sentinels")
 }
